@@ -63,6 +63,11 @@ Theorem C13_scale_invariant :
         let '(a2, b2, _, _) := estimate RN l in a1 = a2 /\ b1 = b2.
 Proof. exact (@estimate_scale_invariant). Qed.
 
+(* the estimate depends on the observations (w_i, p*_i, x*_i) only as a multiset: every reordering of the triples (array weights travelling with their observation) gives the same a_hat, b_hat; that an observation's p* is its rank's plotting position is numpy.argsort's contract *)
+Theorem C13_estimate_order_invariant :
+  forall l l' : list obsR, Permutation.Permutation l l' -> estimate RN l = estimate RN l'.
+Proof. exact (@estimate_order_invariant). Qed.
+
 (* alpha = 10^a_hat, beta = divisor/dividend *)
 Theorem C13_alpha_beta :
   forall l : list obsR,
@@ -105,6 +110,7 @@ Print Assumptions C13_estimate_is_weighted_regression.
 Print Assumptions C13_estimate_optimal.
 Print Assumptions C13_regression_optimal.
 Print Assumptions C13_scale_invariant.
+Print Assumptions C13_estimate_order_invariant.
 Print Assumptions C13_alpha_beta.
 Print Assumptions C13_zero_observations_ignored.
 Print Assumptions C13_keep_nonzero.
